@@ -26,7 +26,8 @@ def run(c):
     c.cov["mutation_kinds_seen"] = sorted({m for r in recs for m in r["mutations"]})
     c.cov["exhaustive"] = True
     c.cov["samples"].append({"scenario": recs[0]["scenario"], "k": recs[0]["k"], "mutations": recs[0]["mutations"], "outcome": recs[0]["outcome"], "redo": recs[0]["redo"]})
-    mid = [r for r in recs if r["scenario"] == "pull-diverged-merge"][10]
+    pdm = [r for r in recs if r["scenario"] == "pull-diverged-merge"] or recs
+    mid = pdm[len(pdm) // 2]
     c.cov["samples"].append({"scenario": mid["scenario"], "k": mid["k"], "interrupted": mid["mutations"][mid["k"] - 1] if mid["k"] <= mid["n"] else "none", "outcome": mid["outcome"], "clockok": mid["clockok"]})
     seen = set()
     for ev, reason in failures:
